@@ -58,6 +58,13 @@ static const struct jls_signal_def_s SIGNAL_32_DEFAULTS = {
         .utc_decimate_factor = 100,
 };
 
+static const struct jls_signal_def_s SIGNAL_24_DEFAULTS = {
+        .samples_per_data = 8320,           // 10 samples = 240 bits is the smallest whole-byte entry
+        .sample_decimate_factor = 130,
+        .entries_per_summary = 640,
+        .summary_decimate_factor = 20,
+};
+
 static const struct jls_signal_def_s SIGNAL_16_DEFAULTS = {
         .samples_per_data = 16384,
         .sample_decimate_factor = 256,
@@ -194,7 +201,7 @@ static void signal_def_defaults(struct jls_signal_def_s * def) {
         case 4:  d = &SIGNAL_4_DEFAULTS; break;
         case 8:  d = &SIGNAL_8_DEFAULTS; break;
         case 16: d = &SIGNAL_16_DEFAULTS; break;
-        case 24: d = &SIGNAL_32_DEFAULTS; break;
+        case 24: d = &SIGNAL_24_DEFAULTS; break;
         case 32: d = &SIGNAL_32_DEFAULTS; break;
         case 64: d = &SIGNAL_64_DEFAULTS; break;
         default: return;
